@@ -218,6 +218,8 @@ def jobs(tier):
         js.append(continuity_job(5))
     seen = set()
     for spec in T.structure_specs(tier):
+        if 'empty' in spec.name:
+            continue
         size = spec.sizes[tier][0]
         key = (spec.name.split('|')[0], spec.name.split('fs=')[1], size[0])
         if key in seen:
